@@ -481,7 +481,13 @@ impl Rasn {
                 assignment!(self, &ty.as_str(), self.value_to_tokens(&tld.value, None)?),
                 self.config.no_std_compliant_bindings
             ),
-            _ => Ok(TokenStream::new()),
+            // Templates are instantiated where they are used.
+            _ if tld.parameterization.is_some() => Ok(TokenStream::new()),
+            _ => Err(GeneratorError::new(
+                Some(ToplevelDefinition::Value(tld)),
+                "Value assignments of this form are currently unsupported!",
+                GeneratorErrorType::NotYetInplemented,
+            )),
         }
     }
 
